@@ -1,3 +1,4 @@
+import math
 """C09 -- potable model language: modifiers and custom formulas mean what is documented.
 
 Generated: potential definitions from the documented grammar (built-in, custom
@@ -92,7 +93,8 @@ def _case(draw, depth, feature=None, twin=False):
     neg = []
     for b in model.walk_simple(pd):
         if b["k"] == "mod" and b["m"] == "trans" and b.get("x", 0) < 0:
-            neg.extend([-0.5 * b["x"], -0.9 * b["x"], -1.0 * b["x"]])
+            # ... at, and a hair above, the separation where the shifted argument reaches 0 (a row 3*0.1 for X = -0.3)
+            neg.extend([-0.5 * b["x"], -1.0 * b["x"], math.nextafter(-1.0 * b["x"], math.inf), -1.0 * b["x"] * (1 + 1e-10), -0.9 * b["x"]])
     # separations at which the dividend of a remainder is negative
     def fmods(e):
         if isinstance(e, dict):
